@@ -322,6 +322,8 @@ def regex_of(lex):
         return r'[\s\S]*'
     if k == 'cat':
         return ''.join('(?:%s)' % regex_of(p) for p in lex[1])
+    if k == 'rep':
+        return '(?:%s)*' % regex_of(lex[1])
     if k == 'alt':
         return '|'.join('(?:%s)' % regex_of(p) for p in lex[1])
     raise ValueError('no regex for %r' % (lex,))
